@@ -1035,4 +1035,183 @@ func runC10(r *Run) {
 	for i := 0; i < nB; i++ {
 		c10File(r)
 	}
+	c10SelfPointer(r)
+	c10ManyZones(r)
+}
+
+// c10SelfPointer: map values (and slice items) of a struct type that holds a pointer to its own
+// Go type — a category with a parent.  The value the map decoder works in and the pointee are
+// allocations of the same type from the same bank; all of them stay what they were decoded as
+// while the bank is open.
+type c10Cat struct {
+	Name   string  `json:"name"`
+	Parent *c10Cat `json:"parent"`
+}
+type c10Cats struct {
+	ByKey map[string]c10Cat `json:"by_key"`
+	List  []c10Cat          `json:"list"`
+	One   *c10Cat           `json:"one"`
+}
+
+func c10SelfPointer(r *Run) {
+	leaf := `{"type":"record","name":"Top","fields":[{"name":"name","type":"string"},{"name":"parent","type":"null"}]}`
+	cat := func(n string) string {
+		return `{"type":"record","name":"` + n + `","fields":[{"name":"name","type":"string"},{"name":"parent","type":["null",` + leaf + `]}]}`
+	}
+	schema := `{"type":"record","name":"Cats","fields":[{"name":"by_key","type":{"type":"map","values":` + cat("CatM") + `}},{"name":"list","type":{"type":"array","items":` + cat("CatL") + `}},{"name":"one","type":["null",` + cat("CatO") + `]}]}`
+	str := func(x string) []byte { return append(specVarint(int64(len(x))), x...) }
+	catBytes := func(name, parent string) []byte {
+		b := str(name)
+		if parent == "" {
+			return append(b, 0)
+		}
+		return append(append(b, 2), str(parent)...) // Top{name, parent: null (no bytes)}
+	}
+	var recs [][]byte
+	type want struct{ name, parent string }
+	var wants [][]want // per record: map entries by key order, then list, then one
+	for k := 0; k < 6; k++ {
+		var rec []byte
+		var w []want
+		n := 3 + k
+		rec = append(rec, specVarint(int64(n))...)
+		for e := 0; e < n; e++ {
+			nm, par := fmt.Sprintf("r%d-m%d", k, e), fmt.Sprintf("parent of r%d-m%d", k, e)
+			if e%4 == 3 {
+				par = ""
+			}
+			rec = append(append(rec, str(fmt.Sprintf("key%02d", e))...), catBytes(nm, par)...)
+			w = append(w, want{nm, par})
+		}
+		rec = append(rec, 0)
+		rec = append(rec, specVarint(int64(n))...)
+		for e := 0; e < n; e++ {
+			nm, par := fmt.Sprintf("r%d-l%d", k, e), fmt.Sprintf("parent of r%d-l%d", k, e)
+			rec = append(rec, catBytes(nm, par)...)
+			w = append(w, want{nm, par})
+		}
+		rec = append(rec, 0)
+		rec = append(append(rec, 2), catBytes(fmt.Sprintf("r%d-one", k), fmt.Sprintf("parent of r%d-one", k))...)
+		w = append(w, want{fmt.Sprintf("r%d-one", k), fmt.Sprintf("parent of r%d-one", k)})
+		recs = append(recs, rec)
+		wants = append(wants, w)
+	}
+	ct := &Container{SchemaJSON: []byte(schema), Codec: codecNames[r.Rng.Intn(3)], Sync: randSync(r.Rng)}
+	ct.Blocks = []CBlock{{Count: 2, Payload: append(append([]byte{}, recs[0]...), recs[1]...)}, {Count: 3, Payload: bytes.Join(recs[2:5], nil)}, {Count: 1, Payload: recs[5]}}
+	file := ct.Bytes(false)
+	desc := map[string]any{"schema": schema, "codec": ct.Codec, "file": hexs(file), "go_type": "struct{ByKey map[string]Cat; List []Cat; One *Cat} with Cat struct{Name string; Parent *Cat}"}
+	r.Count("B/self-pointer")
+	var kept []*c10Cats
+	var banks []*avro.ResourceBank
+	check := func(when string) bool {
+		for k, v := range kept {
+			w := wants[k]
+			n := (len(w) - 1) / 2
+			bad := func(what string, c *c10Cat, x want) bool {
+				if c == nil || c.Name != x.name || (x.parent == "") != (c.Parent == nil) || (c.Parent != nil && c.Parent.Name != x.parent) {
+					got := "<nil>"
+					if c != nil {
+						got = fmt.Sprintf("{%q parent %v}", c.Name, c.Parent)
+						if c.Parent != nil {
+							got = fmt.Sprintf("{%q parent %q}", c.Name, c.Parent.Name)
+						}
+					}
+					r.Fail(-1, "mutated-before-close", fmt.Sprintf("%s: record %d %s is %s, decoded from {%q parent %q} (its bank is still open)", when, k, what, got, x.name, x.parent), desc)
+					return true
+				}
+				return false
+			}
+			if len(v.ByKey) != n || len(v.List) != n {
+				r.Fail(-1, "mutated-before-close", fmt.Sprintf("%s: record %d has %d map entries and %d items, written %d each", when, k, len(v.ByKey), len(v.List), n), desc)
+				return false
+			}
+			for e := 0; e < n; e++ {
+				c := v.ByKey[fmt.Sprintf("key%02d", e)]
+				if bad(fmt.Sprintf("map entry key%02d", e), &c, w[e]) || bad(fmt.Sprintf("list item %d", e), &v.List[e], w[n+e]) {
+					return false
+				}
+			}
+			if bad("field one", v.One, w[2*n]) {
+				return false
+			}
+		}
+		return true
+	}
+	err := func() (err error) {
+		defer func() {
+			if p := recover(); p != nil {
+				err = fmt.Errorf("PANIC: %v", p)
+			}
+		}()
+		return avro.ReadFile(bytes.NewReader(file), c10Cats{}, func(val unsafe.Pointer, rb *avro.ResourceBank) error {
+			v := *(*c10Cats)(val) // a shallow copy: maps, slices and pointers still point into the bank
+			kept = append(kept, &v)
+			banks = append(banks, rb)
+			if !check(fmt.Sprintf("at delivery of record %d", len(kept)-1)) {
+				return errors.New("stop")
+			}
+			return nil
+		})
+	}()
+	if err != nil && err.Error() != "stop" {
+		r.Fail(-1, "legal-file-rejected", "ReadFile of a file with map values holding pointers to their own Go type: "+err.Error(), desc)
+	} else if err == nil {
+		if len(kept) != 6 {
+			r.Fail(-1, "valid-records", fmt.Sprintf("%d records delivered, 6 written", len(kept)), desc)
+		}
+		check("after the read")
+	}
+	for _, b := range banks {
+		b.Close()
+	}
+}
+
+// c10ManyZones: more distinct UTC offsets in one process than any small cache holds, every
+// decoded time retained: a time keeps the instant and the offset it was delivered with.
+func c10ManyZones(r *Run) {
+	type row struct {
+		At time.Time `json:"at"`
+		ID int64     `json:"id"`
+	}
+	schema := `{"type":"record","name":"Row","fields":[{"name":"at","type":"string"},{"name":"id","type":"long"}]}`
+	var payload []byte
+	var texts []string
+	n := 0
+	for off := -14 * 60; off <= 14*60; off += 13 {
+		sign, a := "+", off
+		if off < 0 {
+			sign, a = "-", -off
+		}
+		text := fmt.Sprintf("2021-03-04T05:06:07.25%s%02d:%02d", sign, a/60, a%60)
+		texts = append(texts, text)
+		payload = append(append(append(payload, specVarint(int64(len(text)))...), text...), specVarint(int64(n))...)
+		n++
+	}
+	ct := &Container{SchemaJSON: []byte(schema), Codec: "null", Sync: randSync(r.Rng), Blocks: []CBlock{{Count: int64(n), Payload: payload}}}
+	file := ct.Bytes(false)
+	r.Count("B/many-zones")
+	var kept []row
+	var banks []*avro.ResourceBank
+	err := avro.ReadFile(bytes.NewReader(file), row{}, func(val unsafe.Pointer, rb *avro.ResourceBank) error {
+		kept = append(kept, *(*row)(val))
+		banks = append(banks, rb)
+		return nil
+	})
+	desc := map[string]any{"schema": schema, "rows": n, "how": "one row per UTC offset from -14:00 to +14:00 in steps of 13 minutes, every row retained, no bank closed"}
+	if err != nil || len(kept) != n {
+		r.Fail(-1, "legal-file-rejected", fmt.Sprintf("ReadFile of %d timestamps with distinct offsets: %d rows, error %v", n, len(kept), err), desc)
+	} else {
+		for k, v := range kept {
+			want, perr := time.Parse(time.RFC3339Nano, texts[k])
+			_, wo := want.Zone()
+			_, go_ := v.At.Zone()
+			if perr != nil || !v.At.Equal(want) || wo != go_ {
+				r.Fail(-1, "mutated-before-close", fmt.Sprintf("row %d was decoded from %q and now reads %s (its bank is still open, %d rows with other offsets were decoded after it)", k, texts[k], v.At.Format(time.RFC3339Nano), n-k-1), desc)
+				break
+			}
+		}
+	}
+	for _, b := range banks {
+		b.Close()
+	}
 }
